@@ -67,6 +67,9 @@ type Case struct {
 	// too; the list is then overwritten in place. A program that fixes author spellings in its list and summarises again
 	// does exactly this. The Reference has no variable an earlier list could leave anything in.
 	Decoy bool `json:"decoy"`
+	// KeepEmpty (synth): commits without any file change stay in the synthesised commit list (a list assembled by a program
+	// may contain them; the log parser never produces them)
+	KeepEmpty bool `json:"keepEmpty"`
 }
 
 type ChangeFact struct {
@@ -143,12 +146,14 @@ type CliTables struct {
 }
 
 type Record struct {
-	Case     string       `json:"case"`
-	Mode     string       `json:"mode"`
-	History  []Commit     `json:"history"`
-	Facts    []CommitFact `json:"facts"`
-	Order    []string     `json:"order"`
-	Observed Obs          `json:"observed"`
+	Case    string       `json:"case"`
+	Mode    string       `json:"mode"`
+	History []Commit     `json:"history"`
+	Facts   []CommitFact `json:"facts"`
+	Order   []string     `json:"order"`
+	// KeepEmpty: the list handed to the summaries contains the commits without changes too (synth mode only)
+	KeepEmpty bool `json:"keepEmpty"`
+	Observed  Obs  `json:"observed"`
 }
 
 func emptyObs() Obs {
@@ -394,7 +399,7 @@ func buildSynth(c Case) ([]cocagit.CommitMessage, []CommitFact) {
 			cf.Changes = append(cf.Changes, ch)
 			cm.Changes = append(cm.Changes, cocagit.FileChange{Added: ch.Added, Deleted: ch.Deleted, File: ch.File, Mode: ch.Mode})
 		}
-		if len(cm.Changes) > 0 {
+		if len(cm.Changes) > 0 || c.KeepEmpty {
 			msgs = append(msgs, cm)
 		}
 		facts = append(facts, cf)
@@ -484,7 +489,7 @@ func one(raw json.RawMessage) interface{} {
 		panic(err)
 	}
 	norm(&c)
-	rec := Record{Case: c.Case, Mode: c.Mode, History: c.History, Facts: []CommitFact{}, Order: c.Order, Observed: emptyObs()}
+	rec := Record{Case: c.Case, Mode: c.Mode, History: c.History, Facts: []CommitFact{}, Order: c.Order, KeepEmpty: c.KeepEmpty && c.Mode == "synth", Observed: emptyObs()}
 	scratch, err := os.MkdirTemp(os.Getenv("VERIF_SCRATCH"), "git-")
 	if err != nil {
 		panic(err)
@@ -684,7 +689,7 @@ func abnormal(raw json.RawMessage, timeout bool, stderr string) interface{} {
 	var c Case
 	json.Unmarshal(raw, &c)
 	norm(&c)
-	rec := Record{Case: c.Case, Mode: c.Mode, History: c.History, Facts: []CommitFact{}, Order: c.Order, Observed: emptyObs()}
+	rec := Record{Case: c.Case, Mode: c.Mode, History: c.History, Facts: []CommitFact{}, Order: c.Order, KeepEmpty: c.KeepEmpty && c.Mode == "synth", Observed: emptyObs()}
 	rec.Observed.Panic = true
 	rec.Observed.Note = "process died: " + tailStr(stderr, 300)
 	return rec
